@@ -74,6 +74,12 @@ func isSystemName(name string) bool {
 	return strings.HasPrefix(name, reservedNamesPrefix)
 }
 
+// isRelocationWorkerName reports whether name belongs to a relocation worker,
+// the one kind of system actor that is stopped while the system keeps running.
+func isRelocationWorkerName(name string) bool {
+	return strings.HasPrefix(name, reservedName(relocationWorkerType)+"-")
+}
+
 // isReliableDeliveryControllerName reports whether name belongs to one of the
 // reserved reliable-delivery controller namespaces.
 func isReliableDeliveryControllerName(name string) bool {
